@@ -23,13 +23,22 @@ def run(ctx):
         "model for inputs whose deviations are known (deviations the statement leaves open are excluded from the model); for every "
         "input: session => independently parsed bytes are X-SOCKETACE announce offering v2.0.0 + GET upgrade with token "
         "socketace/v2.0.0 (client: 200 then 101), and the bytes behind the handshake come out of the returned connection unchanged. "
+        "Concurrency (family 'concurrent', 96 groups per seed): groups of 1..12 byte strings of either role (composed by theme: all "
+        "refused at the announce / all refused at the upgrade / all sessions / client failures / client sessions / identical "
+        "requests / mixed, each with its own configuration, segmentation and connection) are first served one at a time, then 2..16 "
+        "goroutines serve the same handshakes over and over at the same time (>= 6000 handshakes per group); every concurrent "
+        "execution must show exactly what the same bytes showed alone (session?, lines written, every header of every written "
+        "message, next-layer bytes, security state), and a process-fatal event (e.g. 'concurrent map writes') is attributed by the "
+        "driver to the group whose replayable descriptor was marked before the goroutines started. "
         "A case is distinct by (role, configuration, input bytes, split); non-trivial = the code wrote at least one line or "
         "established a session.",
         ["net/textproto is used by the harness to delimit the two messages of an input (same library as the code under test)",
          "the model's notion of well-formed is deliberately narrow: inputs with debatable deviations (double spaces, quoted or "
          "upper-case versions, lists in Connection/Upgrade, bare CR line ends, +200 status codes, client-side unsupported "
          "Protocol-Version) are only checked for panics, segmentation invariance, the session implication and read-ahead",
-         "segmentation is modelled as arbitrary non-empty read sizes on a reliable ordered stream; EOF follows the scripted bytes"],
+         "segmentation is modelled as arbitrary non-empty read sizes on a reliable ordered stream; EOF follows the scripted bytes",
+         "concurrent groups: the interleaving of the goroutines is whatever the Go scheduler produces (not seeded); a group counts as "
+         "non-trivial only if at least two handshakes were observed in flight at the same moment; a replay runs 5x the rounds"],
         extra_cov={"exhaustive": False,
                    "exhaustive_subspace": "every prefix (truncation at every offset) of the fixed valid exchanges, both roles"},
         min_distinct=1000 if not ctx.replay else 1)
